@@ -6,6 +6,7 @@ import Driver.C04
 import Driver.C05
 import Driver.C06
 import Driver.C10
+import Driver.C10P
 import Driver.C12
 import Driver.C12Batch
 import Driver.C12Lit
@@ -38,6 +39,7 @@ def suites : List (String × Driver.Suite) :=
   Driver.C05.suites ++
   Driver.C06.suites ++
   Driver.C10.suites ++
+  Driver.C10P.suites ++
   Driver.C12.suites ++
   Driver.C12Batch.suites ++
   Driver.C12Lit.suites ++
